@@ -1462,6 +1462,8 @@ class MindsDBParser(Parser):
             if len(p.identifier.parts) > 1:
                 namespace = p.identifier.parts[0]
             name = p.identifier.parts[-1]
+            if isinstance(name, Star):
+                raise ParsingException(f'Function name can not be *: {str(p.identifier)}')
         else:
             name = p.function_name
         return Function(op=name, args=args, namespace=namespace)
